@@ -14,7 +14,11 @@ ops (slots are small integers; values are JSON numbers that are exactly represen
   ["pad_s", b, x] ["pad_v", b, s]      box.pad(float) / box.pad(array)
   ["contains", b, s] ["project", b, s] ["distance", b, s, which]
   ["union", nb, b1, b2] ["inter", nb, b1, b2] ["do_intersect", b1, b2] ["is_empty", b] ["span", b] ["center", b]
-  ["fn", name, [s...], which|null, [scalars...]]      vector / angle primitive on caller arrays
+  ["fn", name, [s...], which|null, [scalars...], reps?]  vector / angle primitive on caller arrays
+  ["unit_cube", nb, dim, centered] ["infinite", nb, dim] ["of_mesh", nb, [s...], pad] ["normalize", s, which]
+A representation code says how a caller array is handed to the function: "a" the ndarray itself, "v" a Vec view
+of it, "l" a list, "t" a tuple, "c" a complex number (2-D only).  "fn" takes one code per argument; "box",
+"contains", "project", "distance", "pad_v", "ofpts" take them as an optional trailing string.
 """
 import cmath
 import json
@@ -61,13 +65,32 @@ def angle_obs(t):
     return ["ang", math.cos(t), math.sin(t), t]
 
 
+def as_rep(arr, r, Vec):
+    if r == "v":
+        return arr.view(Vec)
+    if r == "l":
+        return arr.tolist()
+    if r == "t":
+        return tuple(arr.tolist())
+    if r == "c":
+        return complex(float(arr[0]), float(arr[1]))
+    return arr
+
+
+def scalar(x):
+    """canonical scalar, or an 'other' marker when the primitive did not return a scalar"""
+    if np.ndim(x) != 0:
+        return ["other", "non-scalar result %r" % (x,)]
+    return ["s", canon_float(x)]
+
+
 def call_fn(geom, Vec, name, A, which, sc):
     """returns canonical result"""
     kw = {} if which is None else {"which": which}
     if name == "cross":
         return ["v", canon_vec(geom.cross(A[0], A[1]))]
     if name == "dot":
-        return ["s", canon_float(geom.dot(A[0], A[1]))]
+        return scalar(geom.dot(A[0], A[1]))
     if name == "vdot":
         return ["s", canon_float(Vec(A[0]).dot(A[1]))]
     if name == "norm":
@@ -79,9 +102,9 @@ def call_fn(geom, Vec, name, A, which, sc):
     if name == "normalized":
         return ["v", canon_vec(Vec.normalized(A[0], **kw))]
     if name == "det2":
-        return ["s", canon_float(geom.det_2x2(A[0], A[1]))]
+        return scalar(geom.det_2x2(A[0], A[1]))
     if name == "det3":
-        return ["s", canon_float(geom.det_3x3(A[0], A[1], A[2]))]
+        return scalar(geom.det_3x3(A[0], A[1], A[2]))
     if name == "cotan":
         return ["s", canon_float(geom.cotan(A[0], A[1], A[2]))]
     if name == "angle3":
@@ -121,6 +144,20 @@ def call_fn(geom, Vec, name, A, which, sc):
         a, b = float(sc[0]), float(sc[1])
         return ["vs", [canon_vec(geom.rotate_around_axis(geom.rotate_around_axis(A[0], A[1], a), A[1], b)),
                        canon_vec(geom.rotate_around_axis(A[0], A[1], a + b))]]
+    if name == "quad_area":
+        return scalar(geom.quad_area(A[0], A[1], A[2], A[3]))
+    if name == "aspect_ratio":
+        return scalar(geom.aspect_ratio(A[0], A[1], A[2]))
+    if name == "dist_seg2d":
+        return scalar(geom.distance_to_segment2D(A[0], A[1], A[2]))
+    if name == "solve_quadratic":
+        from mouette.utils import maths
+        return ["v", canon_vec(maths.solve_quadratic(float(sc[0]), float(sc[1]), float(sc[2])))]
+    if name == "outer":
+        m = Vec(A[0]).outer(A[1])
+        return ["vs", [canon_vec(row) for row in np.asarray(m)]]
+    if name == "axis_rot_from_z":
+        return ["v", canon_vec(geom.axis_rot_from_z(A[0]))]
     if name == "sign0":
         return ["s", canon_float(geom.sign0(float(sc[0])))]
     if name == "sign":
@@ -147,10 +184,13 @@ def run_prog(prog):
     np.seterr(divide="warn", over="warn", under="ignore", invalid="warn")
     arrs = {}
     boxes = {}
+    meshes = []
     out = []
 
     def snap():
         a = {k: (v.dtype.str, v.shape, v.tolist()) for k, v in arrs.items()}
+        for j, (m, _) in enumerate(meshes):
+            a["mesh%d" % j] = ("mesh", len(m.vertices), np.asarray(m.vertices._data).tolist())
         b = {k: (np.asarray(v.mini).tolist(), np.asarray(v.maxi).tolist()) for k, v in boxes.items()}
         return a, b
 
@@ -186,28 +226,56 @@ def run_prog(prog):
         call0 = np.geterrcall()
         a0, b0 = snap()
         ids0 = {k: id(v) for k, v in arrs.items()}
+
+        def R(slot, code):
+            return as_rep(arrs[slot], code, Vec)
+
+        def reps(i, n):
+            r = op[i] if len(op) > i and isinstance(op[i], str) else ""
+            return (r + "a" * n)[:n]
         r, exc = ["none"], None
         newbox = None
         try:
             with warnings.catch_warnings():
                 warnings.simplefilter("ignore")
                 if kind == "box":
-                    newbox = (op[1], AABB(arrs[op[2]], arrs[op[3]]))
+                    rr = reps(4, 2)
+                    newbox = (op[1], AABB(R(op[2], rr[0]), R(op[3], rr[1])))
                 elif kind == "ofpts":
-                    newbox = (op[1], AABB.of_points([arrs[s] for s in op[2]], float(op[3])))
+                    rr = reps(4, 1)
+                    pts = [arrs[s] for s in op[2]]
+                    if rr == "l":
+                        pts = [p_.tolist() for p_ in pts]
+                    elif rr == "v" and pts:
+                        pts = np.array(pts)
+                    newbox = (op[1], AABB.of_points(pts, float(op[3])))
+                elif kind == "unit_cube":
+                    newbox = (op[1], AABB.unit_cube(int(op[2]), bool(op[3])))
+                elif kind == "infinite":
+                    bb = AABB.infinite(int(op[2]))
+                    r = ["box", canon_vec(bb.mini), canon_vec(bb.maxi)]
+                elif kind == "of_mesh":
+                    import mouette as M
+                    mesh = M.mesh.from_arrays(np.array([arrs[s] for s in op[2]], dtype=float))
+                    meshes.append((mesh, None))
+                    a0, b0 = snap()
+                    newbox = (op[1], AABB.of_mesh(mesh, float(op[3])))
+                elif kind == "normalize":
+                    res = arrs[op[1]].view(Vec).normalize(op[2]) if op[2] is not None else arrs[op[1]].view(Vec).normalize()
+                    r = ["v", canon_vec(arrs[op[1]])] if res is None else ["other", repr(res)]
                 elif kind == "pad_s":
                     res = boxes[op[1]].pad(float(op[2]))
                     r = ["none"] if res is None else ["other", repr(res)]
                 elif kind == "pad_v":
-                    res = boxes[op[1]].pad(arrs[op[2]])
+                    res = boxes[op[1]].pad(R(op[2], reps(3, 1)))
                     r = ["none"] if res is None else ["other", repr(res)]
                 elif kind == "contains":
-                    res = boxes[op[1]].contains_point(arrs[op[2]])
+                    res = boxes[op[1]].contains_point(R(op[2], reps(3, 1)))
                     r = ["b", bool(res)]
                 elif kind == "project":
-                    r = ["v", canon_vec(boxes[op[1]].project(arrs[op[2]]))]
+                    r = ["v", canon_vec(boxes[op[1]].project(R(op[2], reps(3, 1))))]
                 elif kind == "distance":
-                    r = ["s", canon_float(boxes[op[1]].distance(arrs[op[2]], op[3]))]
+                    r = ["s", canon_float(boxes[op[1]].distance(R(op[2], reps(4, 1)), op[3]))]
                 elif kind == "union":
                     newbox = (op[1], AABB.union(boxes[op[2]], boxes[op[3]]))
                 elif kind == "inter":
@@ -221,7 +289,8 @@ def run_prog(prog):
                 elif kind == "center":
                     r = ["v", canon_vec(boxes[op[1]].center)]
                 elif kind == "fn":
-                    r = call_fn(geom, Vec, op[1], [arrs[s] for s in op[2]], op[3], op[4])
+                    rr = (list(op[5]) if len(op) > 5 and op[5] else []) + ["a"] * len(op[2])
+                    r = call_fn(geom, Vec, op[1], [R(s, rr[i]) for i, s in enumerate(op[2])], op[3], op[4])
                 else:
                     raise RuntimeError("unknown op " + kind)
                 if newbox is not None:
@@ -235,7 +304,8 @@ def run_prog(prog):
             newbox = None
         err1 = dict(np.geterr())
         a1, b1 = snap()
-        arrchg = [[k, a1[k][2]] for k in sorted(a0) if a0[k] != a1[k] or ids0[k] != id(arrs[k])]
+        arrchg = [[k, a1[k][2]] for k in sorted(a0, key=str)
+                  if a0[k] != a1.get(k) or (k in ids0 and ids0[k] != id(arrs[k]))]
         boxchg = [[k, b1[k][0], b1[k][1]] for k in sorted(b0) if b0[k] != b1[k]]
         if newbox is not None:
             boxes[newbox[0]] = newbox[1]
